@@ -38,7 +38,7 @@ CHECKS = {
   design="DESIGN.md §6 C05, §13.2"),
  "C06": dict(
   category="model_checking",
-  text="MCFront.cfg explores every interleaving of sends, window outcomes, Class C receptions and a radio fault at every call position of the async procedure over a scaled counter space (including exhaustion): counters handed to the radio strictly increase. Trace validation: the enumerated async procedures (send|join x RX1 x RX2 outcome x fault position 0..9, followed by a second procedure, with/without Class C) and the nb state machine under free-form event sequences; histories with radio faults injected at random call positions on both front-ends; every transmitted uplink is decoded by Codec.tla (MIC under the full 32-bit counter, low half on the wire) and the counter after every call must equal Mac.tla's (consumed also when the procedure aborts after a successful tx).",
+  text="MCFront.cfg explores every interleaving of sends, window outcomes, Class C receptions and a radio fault at every call position of the async procedure over a scaled counter space (including exhaustion): counters handed to the radio strictly increase; MCFrontReal.cfg repeats it with the REAL constants from start counters 0, 0xFFFE and 2^32-4 .. 2^32-2 (a few accepted downlinks). Trace validation: the enumerated async procedures (send|join x RX1 x RX2 outcome x fault position 0..9, followed by a second procedure, with/without Class C) and the nb state machine under free-form event sequences; histories with radio faults injected at random call positions on both front-ends; every transmitted uplink is decoded by Codec.tla (MIC under the full 32-bit counter, low half on the wire) and the counter after every call must equal Mac.tla's (consumed also when the procedure aborts after a successful tx).",
   note='Trusted: Mac.tla (intended MAC behaviour, DESIGN Appendix B), Regions.tla (regional tables; disputed entries take the laxer reading), Codec.tla/Aes.tla/Cmac.tla (decide authenticity of every delivered frame and decode every uplink), TLC, the scripted radios/timer/RNG of the harness (no oracle logic). Histories are seeded-random (VERIF_SEED), not exhaustive; the exhaustive part is the named MC config over scaled-down constants.',
   technique="explicit TLA+ specification (Mac.tla, Regions.tla, Codec.tla) checked with TLC: " + 'MCFront.cfg + MacTrace.tla' + "; implementation traces validated against it",
   design="DESIGN.md §6 C06"),
@@ -74,7 +74,7 @@ CHECKS = {
   design="DESIGN.md §6 C11, §13.2"),
  "C12": dict(
   category="model_checking",
-  text="MCAdr.cfg explores all interleavings of silent/answered uplinks, confirmed and Class C downlinks, ADR toggles and data-rate overrides with ADR_ACK_LIMIT 2 / DELAY 1 in a region with a data-rate gap; ghost variables restate the property and must equal the MAC's bits and data rate. Trace validation with the real constants: long histories with few downlinks; every uplink's MType, DevAddr, ADR, ADRACKReq and ACK bits are decoded from the transmitted bytes and compared with Mac!UplinkFields, the ADR counter and data rate after every call with Mac!AfterRx2Complete.",
+  text="MCAdr.cfg explores all interleavings of silent/answered uplinks, confirmed and Class C downlinks, ADR toggles and data-rate overrides with ADR_ACK_LIMIT 2 / DELAY 1 in a region with a data-rate gap; ghost variables restate the property and must equal the MAC's bits and data rate; MCAdrReal.cfg / MCAdrRealIN.cfg repeat the exploration with the REAL constants (limit 64, delay 32, AU915 and IN865 with its data-rate gap; the frame counters, which play no part, are hidden by a VIEW: ~5 500 states, depth 322). Trace validation with the real constants: long histories with few downlinks; every uplink's MType, DevAddr, ADR, ADRACKReq and ACK bits are decoded from the transmitted bytes and compared with Mac!UplinkFields, the ADR counter and data rate after every call with Mac!AfterRx2Complete.",
   note='Trusted: Mac.tla (intended MAC behaviour, DESIGN Appendix B), Regions.tla (regional tables; disputed entries take the laxer reading), Codec.tla/Aes.tla/Cmac.tla (decide authenticity of every delivered frame and decode every uplink), TLC, the scripted radios/timer/RNG of the harness (no oracle logic). Histories are seeded-random (VERIF_SEED), not exhaustive; the exhaustive part is the named MC config over scaled-down constants.',
   technique="explicit TLA+ specification (Mac.tla, Regions.tla, Codec.tla) checked with TLC: " + 'MCAdr.cfg + MacTrace.tla' + "; implementation traces validated against it",
   design="DESIGN.md §6 C12"),
